@@ -36,6 +36,8 @@ type Exch struct {
 	TimeoutMs int   `json:"timeout_ms"`
 	ReadTOMs  int   `json:"read_to_ms,omitempty"` // Client.ReadTimeout / WriteTimeout are set as well, to another value: Client.Timeout overrides them
 	API       int   `json:"api,omitempty"`        // 0 ExchangeWithConn, 1 ExchangeWithConnContext(ctx deadline), 2 WriteMsg+ReadMsg
+	CliUDP    int   `json:"cli_udp,omitempty"`    // udp: Client.UDPSize / Conn.UDPSize (0 = the library's default of 512 octets)
+	OptSize   int   `json:"opt_size,omitempty"`   // udp: the query carries an OPT record advertising this receive size (0 = no OPT)
 }
 
 type Client struct {
@@ -44,6 +46,7 @@ type Client struct {
 	Exch     []Exch `json:"exch"`
 	Spoof    int    `json:"spoof,omitempty"`    // forged foreign-ID datagrams injected towards this client
 	Pipeline bool   `json:"pipeline,omitempty"` // tcp: all queries are written before any reply is read; the handlers answer asynchronously
+	Trickle  bool   `json:"trickle,omitempty"`  // tcp: the first query arrives in three pieces, 1.5 and 1 server read timeouts apart, the others right behind it; the server (read timeout 2 s in such a run) may give up on the connection, it must not serve anything but the requests that were sent
 	Home     int    `json:"home,omitempty"`     // udp: which of the server host's addresses this client talks to
 }
 
@@ -113,6 +116,9 @@ func Gen(seed uint64, tier string) any {
 			if core.Chance(r, 6) {
 				s = core.Pick(r, 65536, 65537, 70000)
 			}
+			if core.Chance(r, 8) {
+				s = 1 + r.IntN(11) // a frame too short to hold a header: not a message, but it is delimited like one
+			}
 			sc.Sizes = append(sc.Sizes, s)
 			if s <= 65535 {
 				total += s + 2
@@ -166,6 +172,12 @@ func Gen(seed uint64, tier string) any {
 			if c.Net == "udp" && e.Size > sc.UDPSize {
 				e.Size = sc.UDPSize
 			}
+			e.CliUDP = 65535
+			if c.Net == "udp" && core.Chance(r, 35) {
+				// receive buffers as applications configure them: the default, small EDNS sizes, below the 512-octet minimum
+				e.CliUDP = core.Pick(r, 0, 0, 100, 511, 512, 1232, 4096)
+				e.OptSize = core.Pick(r, 0, 0, 100, 300, 511, 512, 1232, 4096)
+			}
 			e.H.Kind = core.Pick(r, "normal", "normal", "normal", "normal", "wrongid", "twice", "silent", "oversize", "wrongthenright", "raw", "rawoversize")
 			e.H.Steps = r.IntN(4)
 			if core.Chance(r, 25) {
@@ -199,6 +211,14 @@ func Gen(seed uint64, tier string) any {
 			}
 		}
 		sc.Clients = append(sc.Clients, c)
+	}
+	if core.Chance(r, 6) {
+		// a slow sender: one stream client whose first query trickles in
+		c := Client{Net: "tcp", Trickle: true}
+		for j := 0; j < 1+r.IntN(3); j++ {
+			c.Exch = append(c.Exch, Exch{Size: core.Pick(r, 0, 0, 100, 600), Compress: core.Chance(r, 50), H: HPlan{Kind: "normal"}, TimeoutMs: 60000, CliUDP: 65535})
+		}
+		sc.Clients = []Client{c}
 	}
 	return sc
 }
@@ -335,6 +355,7 @@ type exState struct {
 
 	done    bool
 	outcome string
+	guar    int // udp: octets of receive buffer the client side is entitled to for this exchange
 }
 
 type run struct {
@@ -353,6 +374,7 @@ type run struct {
 	lifeFin   bool
 	serveRet  int
 	doneSeq   int
+	rawConn   map[int]bool       // client connections the harness writes octet by octet
 	connReply map[string][]*wrec // server-side remote address -> replies handlers handed to the writer there, in order of hand-over
 }
 
@@ -654,6 +676,10 @@ func (c *clientTask) RunEvent(time.Time) {
 		c.pipeline(co, sconn)
 		return
 	}
+	if plan.Trickle && sconn != nil {
+		c.trickle(co, sconn)
+		return
+	}
 	reads := 0 // completed ReadMsg calls on a stream, = index of the next frame
 	for ei, e := range plan.Exch {
 		ex := x.ex[tok(c.ci, ei)]
@@ -667,15 +693,32 @@ func (c *clientTask) RunEvent(time.Time) {
 			m.Answer = append(m.Answer, &dns.A{Hdr: dns.RR_Header{Name: ex.token + ".test.", Rrtype: dns.TypeA, Class: dns.ClassINET, Ttl: 1}, A: []byte{10, byte(c.ci), byte(ei), 1}})
 			m.Ns = append(m.Ns, &dns.AAAA{Hdr: dns.RR_Header{Name: ex.token + ".test.", Rrtype: dns.TypeAAAA, Class: dns.ClassINET, Ttl: 1}, AAAA: []byte{0x20, 1, 0xd, 0xb8, 0, 0, 0, 0, 0, 0, 0, 0, 0, byte(c.ci), byte(ei), 1}})
 		}
+		if e.OptSize > 0 && dconn != nil && e.Size <= 60000 {
+			// (larger requests need two padding records: a third additional record would be refused by the accept policy)
+			m.SetEdns0(uint16(e.OptSize), false)
+		} else {
+			e.OptSize = 0
+		}
 		sized(m, e.Size)
 		b, perr := m.Pack()
 		if perr != nil {
 			continue
 		}
+		// the receive buffer the library promises for this exchange: what the query advertises
+		// (else what the client is configured with), and never less than 512 octets
+		guar := 65535
+		if dconn != nil {
+			guar = e.CliUDP
+			if e.OptSize > 0 && e.API != 2 {
+				guar = e.OptSize
+			}
+			guar = max(guar, 512)
+		}
 		k.Lock()
 		ex.reqBytes = clone(b)
+		ex.guar = guar
 		k.Unlock()
-		cl := &dns.Client{Timeout: time.Duration(e.TimeoutMs) * time.Millisecond, UDPSize: 65535}
+		cl := &dns.Client{Timeout: time.Duration(e.TimeoutMs) * time.Millisecond, UDPSize: uint16(e.CliUDP)}
 		if e.ReadTOMs > 0 {
 			cl.ReadTimeout, cl.WriteTimeout = time.Duration(e.ReadTOMs)*time.Millisecond, time.Duration(e.ReadTOMs)*time.Millisecond
 		}
@@ -697,7 +740,7 @@ func (c *clientTask) RunEvent(time.Time) {
 			}
 			r, _, err = cl.ExchangeWithConnContext(ctx, m, co)
 		case 2:
-			co.UDPSize = 65535
+			co.UDPSize = uint16(e.CliUDP)
 			co.SetDeadline(deadline)
 			if err = co.WriteMsg(m); err == nil {
 				r, err = co.ReadMsg()
@@ -732,6 +775,77 @@ func (c *clientTask) RunEvent(time.Time) {
 	}
 	co.Close()
 }
+
+// trickle sends the first query in three pieces that each arrive after the
+// server's read deadline has passed, the other queries right behind it, and
+// reads whatever comes back. The server may give up on the connection at any
+// of these points; every request a handler sees and every reply that arrives
+// must still be one of this client's, intact.
+//
+//go:norace
+func (c *clientTask) trickle(co *dns.Conn, sconn *simnet.StreamConn) {
+	x, k := c.x, c.x.k
+	plan := x.sc.Clients[c.ci]
+	sconn.SetDeadline(time.Now().Add(time.Minute))
+	k.Lock()
+	x.rawConn[sconn.ID] = true
+	k.Unlock()
+	for ei, e := range plan.Exch {
+		ex := x.ex[tok(c.ci, ei)]
+		m := new(dns.Msg)
+		m.SetQuestion(ex.token+".test.", dns.TypeTXT)
+		m.Id = ex.id
+		m.Compress = e.Compress
+		sized(m, e.Size)
+		b, perr := m.Pack()
+		if perr != nil {
+			continue
+		}
+		k.Lock()
+		ex.reqBytes = clone(b)
+		k.Unlock()
+		fr := oracle.Frame(b)
+		if ei == 0 {
+			n1, n2 := 2+len(b)/3, 2+2*len(b)/3
+			sconn.Write(fr[:n1])
+			k.Sleep("cli.trickle", trickleTimeout*3/2)
+			sconn.Write(fr[n1:n2])
+			k.Sleep("cli.trickle", trickleTimeout)
+			fr = fr[n2:]
+			k.Bump("fault.client_trickles_frame")
+		}
+		if _, err := sconn.Write(fr); err != nil {
+			break
+		}
+	}
+	for {
+		r, err := co.ReadMsg()
+		if err != nil {
+			break
+		}
+		x.bump("oracle.X1_reply_after_trickle")
+		ok := false
+		k.Lock()
+		for ei := range plan.Exch {
+			for _, w := range x.ex[tok(c.ci, ei)].written {
+				dm := new(dns.Msg)
+				if dm.Unpack(clone(w)) == nil && reflect.DeepEqual(dm, r) {
+					ok = true
+				}
+			}
+		}
+		if !ok {
+			x.res.Fail("X1", "reply-unknown-after-slow-request", "client %d, whose first query trickled in past the server's read timeout, read a reply that no handler of its queries wrote: %s", c.ci, oneLine(r.String()))
+		}
+		k.Unlock()
+		if !ok {
+			break
+		}
+	}
+	co.Close()
+}
+
+const trickleTimeout = 2 * time.Second
 
 // pipeline writes every query of the client, then reads the replies in
 // whatever order the asynchronous handlers produce them.
@@ -824,10 +938,26 @@ func (x *run) judgeExchange(ex *exState, net string, sconn *simnet.StreamConn, d
 	if net == "udp" {
 		k.Lock()
 		var got [][]byte
+		tooLarge, cut := 0, 0
 		for _, d := range dconn.Received[rcvStart:] {
 			got = append(got, clone(d.Data))
+			if len(d.Data) > ex.guar {
+				tooLarge++
+			} else if d.TruncRead {
+				cut = len(d.Data)
+			}
 		}
 		k.Unlock()
+		x.bump("oracle.B1_client_receive_buffer")
+		if cut > 0 {
+			fail("B1", "reply-cut-by-client-buffer", "a %d-octet datagram was cut by the receive buffer the library offered for exchange %s, which is entitled to %d octets (advertised EDNS size / configured UDPSize, at least 512)", cut, ex.token, ex.guar)
+			return "violation"
+		}
+		if tooLarge > 0 {
+			// a datagram larger than what this exchange asked for: whatever the library makes of its head is not judged
+			x.bump("cover.datagram_larger_than_client_buffer")
+			return "excused"
+		}
 		// X2: everything read before the last datagram has another ID and is skipped
 		x.bump("oracle.X2_udp_id_rule")
 		for i, b := range got {
@@ -1104,7 +1234,7 @@ func runExchange(sc *Scenario, res *core.Result, verbose bool) {
 	d, j := time.Duration(sc.DelayMs)*time.Millisecond, time.Duration(sc.JitterMs)*time.Millisecond
 	n.Stream = simnet.StreamLink{MinDelay: d, Jitter: j, SegMode: sc.SegMode, ShortRead: sc.ShortRead}
 	n.Dgram = simnet.DgramLink{MinDelay: d, Jitter: j, Drop: sc.Drop, Dup: sc.Dup}
-	x := &run{sc: sc, k: k, n: n, res: res, ex: map[string]*exState{}, cliFin: make([]bool, len(sc.Clients)), connReply: map[string][]*wrec{}}
+	x := &run{sc: sc, k: k, n: n, res: res, ex: map[string]*exState{}, cliFin: make([]bool, len(sc.Clients)), connReply: map[string][]*wrec{}, rawConn: map[int]bool{}}
 	x.l = n.Listen()
 	x.homes = 1
 	if sc.UDPSock && common.UDPSeam && sc.Homes > 1 {
@@ -1114,6 +1244,11 @@ func runExchange(sc *Scenario, res *core.Result, verbose bool) {
 	x.pc = x.uc.PacketConn
 	mk := func() *dns.Server {
 		s := &dns.Server{Handler: x, UDPSize: sc.UDPSize, ReadTimeout: time.Hour, IdleTimeout: hourIdle}
+		for _, c := range sc.Clients {
+			if c.Trickle {
+				s.ReadTimeout = trickleTimeout
+			}
+		}
 		if sc.Decorate {
 			slow := []time.Duration{0, 0, 2 * time.Millisecond, 20 * time.Millisecond}[sc.RunSeed%4]
 			s.DecorateReader = (&common.Decorator{K: k}).Decorate
@@ -1234,6 +1369,9 @@ func (x *run) judgeRun(outcome string) {
 	for _, c := range x.n.Conns {
 		sent := c.Sent()
 		frames, rest := oracle.Frames(sent)
+		if x.rawConn[c.ID] {
+			continue // written by the harness, octet by octet
+		}
 		res.Bump("oracle.F1_stream_framing")
 		if len(rest) != 0 {
 			res.Fail("F1", "partial-frame-written", "%s side of connection #%d wrote %d octets that do not end on a frame boundary (%d left over)", c.Role, c.ID, len(sent), len(rest))
@@ -1350,8 +1488,13 @@ func (w *frWriter) RunEvent(time.Time) {
 		if err != nil {
 			continue
 		}
+		runt := size > 0 && size < 12
+		if runt {
+			b = b[:size]
+			x.k.Bump("fault.runt_frame")
+		}
 		var werr error
-		if x.sc.WriterAPI == 1 {
+		if x.sc.WriterAPI == 1 || runt {
 			_, werr = co.Write(clone(b))
 		} else {
 			werr = co.WriteMsg(m)
@@ -1413,6 +1556,14 @@ func (r *frReader) RunEvent(time.Time) {
 			}
 		}
 		x.k.Lock()
+		if err != nil && err.Error() == "dns: short read" && x.sc.ReaderAPI != 2 && x.got < len(x.msgs) && len(x.msgs[x.got]) < 12 {
+			// the frame held fewer octets than a header: reported, and consumed - what follows is still framed
+			x.got++
+			x.res.Stats["oracle.F2_runt_frame_reported"]++
+			x.k.EffectLocked("r runt")
+			x.k.Unlock()
+			continue
+		}
 		if err != nil {
 			x.readErr = err.Error()
 			x.rfin = true
